@@ -1,50 +1,42 @@
 open BinNums
 open Datatypes
-open Nat
 
 module Pos =
  struct
-  (** val succ : positive -> positive **)
+  (** val compare_cont : comparison -> positive -> positive -> comparison **)
 
-  let rec succ = function
-  | Coq_xI p -> Coq_xO (succ p)
-  | Coq_xO p -> Coq_xI p
-  | Coq_xH -> Coq_xO Coq_xH
+  let rec compare_cont r x y =
+    match x with
+    | Coq_xI p ->
+      (match y with
+       | Coq_xI q -> compare_cont r p q
+       | Coq_xO q -> compare_cont Gt p q
+       | Coq_xH -> Gt)
+    | Coq_xO p ->
+      (match y with
+       | Coq_xI q -> compare_cont Lt p q
+       | Coq_xO q -> compare_cont r p q
+       | Coq_xH -> Gt)
+    | Coq_xH -> (match y with
+                 | Coq_xH -> r
+                 | _ -> Lt)
 
-  (** val coq_lor : positive -> positive -> positive **)
+  (** val compare : positive -> positive -> comparison **)
 
-  let rec coq_lor p q =
+  let compare =
+    compare_cont Eq
+
+  (** val eqb : positive -> positive -> bool **)
+
+  let rec eqb p q =
     match p with
-    | Coq_xI p0 ->
-      (match q with
-       | Coq_xI q0 -> Coq_xI (coq_lor p0 q0)
-       | Coq_xO q0 -> Coq_xI (coq_lor p0 q0)
-       | Coq_xH -> p)
-    | Coq_xO p0 ->
-      (match q with
-       | Coq_xI q0 -> Coq_xI (coq_lor p0 q0)
-       | Coq_xO q0 -> Coq_xO (coq_lor p0 q0)
-       | Coq_xH -> Coq_xI p0)
+    | Coq_xI p0 -> (match q with
+                    | Coq_xI q0 -> eqb p0 q0
+                    | _ -> false)
+    | Coq_xO p0 -> (match q with
+                    | Coq_xO q0 -> eqb p0 q0
+                    | _ -> false)
     | Coq_xH -> (match q with
-                 | Coq_xO q0 -> Coq_xI q0
-                 | _ -> q)
-
-  (** val iter_op : ('a1 -> 'a1 -> 'a1) -> positive -> 'a1 -> 'a1 **)
-
-  let rec iter_op op p a =
-    match p with
-    | Coq_xI p0 -> op a (iter_op op p0 (op a a))
-    | Coq_xO p0 -> iter_op op p0 (op a a)
-    | Coq_xH -> a
-
-  (** val to_nat : positive -> nat **)
-
-  let to_nat x =
-    iter_op add x (S O)
-
-  (** val of_succ_nat : nat -> positive **)
-
-  let rec of_succ_nat = function
-  | O -> Coq_xH
-  | S x -> succ (of_succ_nat x)
+                 | Coq_xH -> true
+                 | _ -> false)
  end
